@@ -9,27 +9,13 @@ from pyvc.vals import V, vbool, Node
 from .speclib import REG, Contract
 
 M_NX = "pytestarch.eval_structure.networkxgraph"
-DG = vals.opaque_sort("DiGraph")
 ED = vals.opaque_sort("EdgeData")
-f_dg_node = z3.Function("dg_node", DG, Node, z3.BoolSort())
-f_dg_edge = z3.Function("dg_edge", DG, Node, Node, z3.BoolSort())
-f_dg_inh = z3.Function("dg_inh", DG, Node, Node, z3.BoolSort())
 f_ed_inh = z3.Function("ed_inherits", ED, z3.BoolSort())
-
-
-@REG.specfun("dg_node")
-def _dg_node(eng, st, d, n):
-    return vbool(f_dg_node(d.x, n.x))
-
-
-@REG.specfun("dg_edge")
-def _dg_edge(eng, st, d, a, b):
-    return vbool(f_dg_edge(d.x, a.x, b.x))
-
-
-@REG.specfun("dg_inh")
-def _dg_inh(eng, st, d, a, b):
-    return vbool(f_dg_inh(d.x, a.x, b.x))
+# networkx.DiGraph (assumed): node set, edge set, and the 'inherits' attribute of each edge (one attribute dict per ordered pair)
+vals.declare_obj("DiGraph", dict(nodes="Set[Node]", edges="Set[Tuple[Node,Node]]", inh="Set[Tuple[Node,Node]]"))
+REG.macro("dg_node", ["d", "n"], "n in d.nodes")
+REG.macro("dg_edge", ["d", "a", "b"], "(a, b) in d.edges")
+REG.macro("dg_inh", ["d", "a", "b"], "(a, b) in d.inh")
 
 
 @REG.specfun("ed_inherits")
@@ -37,15 +23,15 @@ def _ed_inh(eng, st, e):
     return vbool(f_ed_inh(e.x))
 
 
-vals.declare_obj("NetworkxGraph", dict(_graph="Opaque[DiGraph]", _level_limit="Opt[Int]"))
+vals.declare_obj("NetworkxGraph", dict(_graph="DiGraph", _level_limit="Opt[Int]"))
 NG = "NetworkxGraph"
-_D = dict(self="Opaque[DiGraph]")
-REG.add(Contract("DiGraph.predecessors", status="assumed", kind="method", params=dict(self="Opaque[DiGraph]", n="Node"), returns="Bag[Node]",
+_D = dict(self="DiGraph")
+REG.add(Contract("DiGraph.predecessors", status="assumed", kind="method", params=dict(self="DiGraph", n="Node"), returns="Bag[Node]",
                  raises=[("NetworkXError", "not dg_node(self, n)")], ensures=["forall(Node, lambda p: (p in result) == dg_edge(self, p, n))"],
                  note="networkx: DiGraph.predecessors raises NetworkXError for a node that is not in the graph"))
-REG.add(Contract("DiGraph.successors", status="assumed", kind="method", params=dict(self="Opaque[DiGraph]", n="Node"), returns="Bag[Node]",
+REG.add(Contract("DiGraph.successors", status="assumed", kind="method", params=dict(self="DiGraph", n="Node"), returns="Bag[Node]",
                  raises=[("NetworkXError", "not dg_node(self, n)")], ensures=["forall(Node, lambda c: (c in result) == dg_edge(self, n, c))"]))
-REG.add(Contract("DiGraph.get_edge_data", status="assumed", kind="method", params=dict(self="Opaque[DiGraph]", u="Node", v="Node"),
+REG.add(Contract("DiGraph.get_edge_data", status="assumed", kind="method", params=dict(self="DiGraph", u="Node", v="Node"),
                  returns="Opt[Opaque[EdgeData]]",
                  ensures=["is_none(result) == (not dg_edge(self, u, v))", "implies(not is_none(result), ed_inherits(unwrap(result)) == dg_inh(self, u, v))"],
                  note="networkx: get_edge_data returns None for a missing edge, else the attribute dict ('inherits' set by _create_edge)"))
@@ -53,8 +39,8 @@ REG.add(Contract("EdgeData.__getitem__", status="assumed", kind="method", params
                  requires=["key == 'inherits'"], defn="ed_inherits(self)", note="attribute dict of an edge: only the key 'inherits' is ever stored"))
 REG.add(Contract("DiGraph.nodes", status="assumed", kind="property", params=_D, returns="Bag[Node]",
                  ensures=["forall(Node, lambda n: (n in result) == dg_node(self, n))"]))
-REG.add(Contract("DiGraph.has_node", status="assumed", kind="method", params=dict(self="Opaque[DiGraph]", n="Node"), returns="Bool", defn="dg_node(self, n)"))
-REG.add(Contract("DiGraph.has_edge", status="assumed", kind="method", params=dict(self="Opaque[DiGraph]", u="Node", v="Node"), returns="Bool", defn="dg_edge(self, u, v)"))
+REG.add(Contract("DiGraph.has_node", status="assumed", kind="method", params=dict(self="DiGraph", n="Node"), returns="Bool", defn="dg_node(self, n)"))
+REG.add(Contract("DiGraph.has_edge", status="assumed", kind="method", params=dict(self="DiGraph", u="Node", v="Node"), returns="Bool", defn="dg_edge(self, u, v)"))
 
 P = ["C01", "C03", "C13", "C15", "C04"]
 REG.add(Contract(f"{NG}.direct_predecessor_nodes", module=M_NX, kind="method", params=dict(self=NG, node="Node"), returns="Bag[Node]",
@@ -116,3 +102,42 @@ REG.add(Contract(f"{NG}._create_plot_labels_with_alias", module=M_NX, kind="meth
                      "forall(Str, lambda m: (m in labels) == (m in seen))",
                      "forall(Str, lambda m: implies(m in labels, label_ok(aliases, m, labels[m])))"])},
                  properties=["C17", "C14"]))
+
+# ---------------------------------------------------------------- graph construction (C02, C04, C09): node / edge creation
+REG.add(Contract("DiGraph.add_node", status="assumed", kind="method", params=dict(self="DiGraph", n="Node"), returns="None", modifies=["self"],
+                 ensures=["forall(Node, lambda x: (x in self.nodes) == ((x in old(self).nodes) or x == n))", "self.edges == old(self).edges", "self.inh == old(self).inh"]))
+REG.add(Contract("DiGraph.add_edge", status="assumed", kind="method", params=dict(self="DiGraph", u="Node", v="Node", inherits="Bool"), returns="None", modifies=["self"],
+                 ensures=["forall(Node, lambda x: (x in self.nodes) == ((x in old(self).nodes) or x == u or x == v))",
+                          "forall(Node, Node, lambda a, b: ((a, b) in self.edges) == (((a, b) in old(self).edges) or (a == u and b == v)))",
+                          # one attribute dict per ordered pair: adding the edge again overwrites 'inherits'
+                          "forall(Node, Node, lambda a, b: ((a, b) in self.inh) == ((inherits if (a == u and b == v) else ((a, b) in old(self).inh))))"],
+                 note="networkx: add_edge(u, v, inherits=b) creates missing endpoints and sets / overwrites the edge attribute"))
+REG.add(Contract("DiGraph.__contains__", status="assumed", kind="method", params=dict(self="DiGraph", n="Node"), returns="Bool", defn="n in self.nodes"))
+_f_flat = z3.Function("flat", z3.BoolSort(), z3.IntSort(), Node, Node)
+
+
+@REG.specfun("flat")
+def _flat(eng, st, limit, n):
+    """_flatten_graph_node: the name itself without a level limit, else the name truncated to limit+1 dotted components (uninterpreted here)."""
+    return V(n.t, z3.If(limit.x[0], n.x, _f_flat(z3.BoolVal(False), limit.x[1].x, n.x)))
+
+
+REG.add(Contract(f"{NG}._flatten_graph_node", module=M_NX, kind="method", status="bounded", params=dict(self=NG, node="Node"), returns="Node",
+                 defn="flat(self._level_limit, node)",
+                 note="split('.') / join: not brought under contract; the truncation is checked by the bounded C09 stand-in (quotient graph for every k)"))
+REG.add(Contract(f"{NG}._create_node", module=M_NX, kind="method", params=dict(self=NG, node="Node"), returns="None", modifies=["self"],
+                 ensures=["forall(Node, lambda x: (x in self._graph.nodes) == ((x in old(self)._graph.nodes) or x == flat(old(self)._level_limit, node)))",
+                          "self._graph.edges == old(self)._graph.edges", "self._graph.inh == old(self)._graph.inh", "self._level_limit == old(self)._level_limit"],
+                 properties=["C04", "C09"]))
+REG.macro("ce_adds", ["g", "a", "b", "inherits"],
+          "a != b and (a in g.nodes) and (b in g.nodes) and not (((a, b) in g.edges) and (((a, b) in g.inh) == inherits))")
+REG.add(Contract(f"{NG}._create_edge", module=M_NX, kind="method", params=dict(self=NG, node_start="Node", node_end="Node", inherits="Bool"), returns="None",
+                 modifies=["self"], defaults=dict(inherits="False"),
+                 ensures=[
+                     # C02: an edge is only created between two KNOWN modules; C09: after flattening, self edges are dropped; never a new node
+                     "self._graph.nodes == old(self)._graph.nodes", "self._level_limit == old(self)._level_limit",
+                     "forall(Node, Node, lambda a, b: ((a, b) in self._graph.edges) == (((a, b) in old(self)._graph.edges) or "
+                     "(a == flat(old(self)._level_limit, node_start) and b == flat(old(self)._level_limit, node_end) and ce_adds(old(self)._graph, a, b, inherits))))",
+                     "forall(Node, Node, lambda a, b: ((a, b) in self._graph.inh) == (inherits if (a == flat(old(self)._level_limit, node_start) and b == flat(old(self)._level_limit, node_end) "
+                     "and ce_adds(old(self)._graph, a, b, inherits)) else ((a, b) in old(self)._graph.inh)))"],
+                 properties=["C02", "C04", "C09"]))
